@@ -23,10 +23,11 @@ func zzStubDigest(pub *PublicKey, msg, uid []byte) ([]byte, error) {
 //
 //verif:property C01
 //verif:expect-reach signed
-//verif:bound abstract prime-order group of order q=257 (a Fermat prime: the nonce reduction mod q-1 is a bit mask; q=65537 takes 19 min and is not registered) in place of the curve; d each of {1,100,q-2} (quick) / {1,2,3,100,q/2,q-3,q-2} (thorough) with the nonce bytes (80 bits) and the digest symbolic; digest an arbitrary function of (key,msg,uid) with 16-bit values (the group order has 9 or 17 bits); up to 2 nonce draws (runs needing a third draw are outside the bound)
+//verif:bound abstract prime-order group of order q=257 (a Fermat prime: the nonce reduction mod q-1 is a bit mask; q=65537 takes 19 min and is not registered) in place of the curve; d each of {1,100,q-2} (quick) / {1,2,3,100,q/2,q-3,q-2} (thorough) with the nonce bytes (80 bits) and the digest symbolic; Z_A and the digest arbitrary functions of (key,id) resp. (Z_A,msg) with 16-bit digest values (the group order has 9 or 17 bits); up to 2 nonce draws (runs needing a third draw are outside the bound)
 //verif:outside the real curve inside sign/verify (see C03); hash chaining (C04)
-//verif:stub-symbolic (*github.com/tjfoc/gmsm/sm2.PublicKey).Sm3Digest zzStubDigest
-//verif:unwind 4
+//verif:stub-symbolic github.com/tjfoc/gmsm/sm2.ZA zzStubZAuf
+//verif:stub-symbolic github.com/tjfoc/gmsm/sm2.msgHash zzStubMsgHashUf
+//verif:unwind 40
 //verif:nomerge
 func zzH_c01_sign_spec() {
 	g := zzNewGroup(257)
@@ -49,8 +50,8 @@ func zzH_c01_sign_spec() {
 	if err != nil {
 		return
 	}
-	digest, _ := zzStubDigest(&priv.PublicKey, msg, nil)
-	e := new(big.Int).SetBytes(digest)
+	za, _ := zzStubZAuf(&priv.PublicKey, default_uid)
+	e, _ := zzStubMsgHashUf(za, msg)
 	vAssert("r-range", r.Sign() > 0 && r.Cmp(g.params.N) < 0)
 	vAssert("s-range", s.Sign() > 0 && s.Cmp(g.params.N) < 0)
 	// the nonce of the accepted (last) draw, recomputed from the same symbolic bytes
@@ -72,6 +73,8 @@ func zzH_c01_sign_spec() {
 	vAssert("s-eq-spec", lhs.Cmp(rhs) == 0)
 	rk := new(big.Int).Add(r, k)
 	vAssert("r-plus-k-ne-n", rk.Cmp(g.params.N) != 0)
+	// (completeness - Sm2Verify accepts this (r, s) - is the same modular algebra seen from the verifier's
+	// side; as an assertion here it comes back "unknown" after 13 min even for a concrete key and q = 257)
 	vReach("signed")
 }
 
@@ -134,6 +137,19 @@ func zzH_c01_verify_gates() {
 var zzMsgHashValue []byte
 
 func zzStubZA01(pub *PublicKey, uid []byte) ([]byte, error) { return []byte{0}, nil }
+
+// Z_A and the message digest as arbitrary functions of their inputs (equal inputs, equal values)
+func zzStubZAuf(pub *PublicKey, uid []byte) ([]byte, error) {
+	id := make([]byte, 16)
+	copy(id, uid)
+	return vUFBytes("za", 4, pub.X.FillBytes(make([]byte, 4)), pub.Y.FillBytes(make([]byte, 4)), id), nil
+}
+func zzStubMsgHashUf(za, msg []byte) (*big.Int, error) {
+	z, m := make([]byte, 4), make([]byte, 4)
+	copy(z, za)
+	copy(m, msg)
+	return new(big.Int).SetBytes(vUFBytes("e", 2, z, m)), nil
+}
 func zzStubMsgHash01(za, msg []byte) (*big.Int, error) {
 	return new(big.Int).SetBytes(zzMsgHashValue), nil
 }
